@@ -26,6 +26,9 @@ OPS = {"Add": "+", "Sub": "-", "Mul": "*", "Lt": "<", "Le": "<=", "Gt": ">", "Ge
        "Concat": "."}
 
 
+_CLOS = []
+
+
 def php_lit(v):
     if v is None:
         return "null"
@@ -70,6 +73,21 @@ def php_expr(e, top=False):
         return "(%s === %s)" % (php_expr(e[1]), php_expr(e[2]))
     if k == "panic":
         return "verif_panic()"      # registered by harness/cmd/c05: a built-in whose Go body panics
+    if k == "idx":
+        return "$%s[%s]" % (e[1], php_expr(e[2], True))
+    if k == "idxinc":
+        t = "$%s[%s]" % (e[2], php_expr(e[3], True))
+        t = "++" + t if e[1] else t + "++"
+        return t if top else "(" + t + ")"
+    if k == "closure":
+        c = _CLOS[e[1]]
+        ps = ", ".join("$" + x + ("" if d is None else " = " + php_lit(d[0])) for x, d in c["params"])
+        if c.get("arrow"):
+            return "fn(%s) => %s" % (ps, php_expr(c["body"][0][1]))
+        use = " use (%s)" % ", ".join("$" + x for x in c["uses"]) if c["uses"] else ""
+        return "function (%s)%s {\n%s}" % (ps, use, php_block(c["body"], 2))
+    if k == "callv":
+        return "%s(%s)" % (php_expr(e[1]), ", ".join(php_expr(x, True) for x in e[2]))
     if k == "match":
         arms = ["%s => %s" % (", ".join(php_expr(c) for c in cs), php_expr(x)) for cs, x in e[2]]
         if e[3] is not None:
@@ -91,6 +109,8 @@ def php_stmt(s, ind=0):
         return p + "echo " + php_expr(s[1], True) + ";\n"
     if k == "push":
         return p + "$%s[] = %s;\n" % (s[1], php_expr(s[2], True))
+    if k == "setidx":
+        return p + "$%s[%d] = %s;\n" % (s[1], s[2], php_expr(s[3], True))
     if k == "if":
         out = p + "if (%s) {\n%s%s}" % (php_expr(s[1], True), php_block(s[2], ind + 1), p)
         for c, b in s[3]:
@@ -138,6 +158,8 @@ def php_stmt(s, ind=0):
 
 
 def php_prog(pr):
+    global _CLOS
+    _CLOS = pr.get("closures", [])
     out = "<?php\n"
     for i in pr.get("ifaces", []):
         out += "interface %s%s {}\n" % (i[0], (" extends " + ", ".join(i[1])) if i[1] else "")
@@ -198,6 +220,14 @@ def coq_expr(e):
         return "(ESame %s %s)" % (coq_expr(e[1]), coq_expr(e[2]))
     if k == "panic":
         return "EPanic"
+    if k == "idx":
+        return "(EIdx %s %s)" % (coq_string(e[1]), coq_expr(e[2]))
+    if k == "idxinc":
+        return "(EIdxInc %s %s %s)" % ("true" if e[1] else "false", coq_string(e[2]), coq_expr(e[3]))
+    if k == "closure":
+        return "(EClosure %d)" % e[1]
+    if k == "callv":
+        return "(ECallV %s %s)" % (coq_expr(e[1]), coq_args(e[2]))
     if k == "match":
         m = "MNil" if e[3] is None else "(MDefault %s)" % coq_expr(e[3])
         for cs, x in reversed(e[2]):
@@ -222,6 +252,8 @@ def coq_stmt(s):
         return "(SEcho %s)" % coq_expr(s[1])
     if k == "push":
         return "(SPush %s %s)" % (coq_string(s[1]), coq_expr(s[2]))
+    if k == "setidx":
+        return "(SSetIdx %s %s %s)" % (coq_string(s[1]), coq_z(s[2]), coq_expr(s[3]))
     if k == "if":
         ei = "EINil"
         for c, b in reversed(s[3]):
@@ -270,7 +302,13 @@ def coq_prog(pr):
         ps = "[" + "; ".join("(%s, %s)" % (coq_string(x), "None" if d is None else "Some " + coq_value(d[0]))
                              for x, d in f["params"]) + "]"
         fs.append("{| fname := %s; fparams := %s; fbody := %s |}" % (coq_string(f["name"]), ps, coq_block(f["body"])))
-    return "{| funcs := [%s]; main := %s |}" % ("; ".join(fs), coq_block(pr["main"]))
+    cl = []
+    for c in pr.get("closures", []):
+        ps = "[" + "; ".join("(%s, %s)" % (coq_string(x), "None" if d is None else "Some " + coq_value(d[0]))
+                             for x, d in c["params"]) + "]"
+        us = "[" + "; ".join(coq_string(x) for x in c["uses"]) + "]"
+        cl.append("{| cparams := %s; cuses := %s; cbody := %s |}" % (ps, us, coq_block(c["body"])))
+    return "{| funcs := [%s]; closures := [%s]; main := %s |}" % ("; ".join(fs), "; ".join(cl), coq_block(pr["main"]))
 
 
 def size_of(x):
@@ -295,9 +333,9 @@ def kinds_of(x, acc):
     return acc
 
 
-STMT_KINDS = {"expr", "echo", "push", "if", "while", "dowhile", "for", "foreach", "switch", "break", "continue",
+STMT_KINDS = {"expr", "echo", "push", "setidx", "if", "while", "dowhile", "for", "foreach", "switch", "break", "continue",
               "return", "static", "try", "throw"}
-EXPR_KINDS = {"assign", "postinc", "call", "and", "or", "not", "arr", "new", "msg", "class", "same", "panic", "match"}
+EXPR_KINDS = {"assign", "postinc", "call", "and", "or", "not", "arr", "new", "msg", "class", "same", "panic", "match", "idx", "idxinc", "closure", "callv"}
 
 
 # ----------------------------------------------------------------------------- generator
@@ -321,6 +359,7 @@ class Gen:
         self.rng = rng
         self.clean = clean
         self.funcs = []          # generated fundefs (name, nparams, nrequired)
+        self.closures = []       # closure table of the program
         self.label = 0
 
     def lab(self):
@@ -341,6 +380,10 @@ class Gen:
             return ["bin", op, self.int_expr(sc, d + 1), self.int_expr(sc, d + 1)]
         if c < 0.9 and sc["callable"]:
             return self.call(sc, d)
+        if c < 0.94 and sc.get("clos"):
+            return self.call_closure(sc, d)
+        if c < 0.97 and sc.get("arr_min", 0) > 0:
+            return ["idx", sc["arr"], lit(r.randrange(sc["arr_min"]))]
         if ivars:
             return var(r.choice(ivars))
         return lit(r.randint(0, 6))
@@ -403,6 +446,47 @@ class Gen:
             sc["ints"].append(x)
         return ["expr", ["assign", x, rhs]]
 
+    def make_closure(self, sc):
+        """a closure (or arrow function) over int parameters that captures some of the scope's int variables by value;
+        its body is a small block of its own scope ending in return (closures that run off their end are a known finding)"""
+        r = self.rng
+        npar = r.randint(1, 2)
+        pnames = ["p", "q"][:npar]
+        nreq = r.randint(1, npar)
+        params = [[x, None if i < nreq else [r.randint(0, 4)]] for i, x in enumerate(pnames)]
+        uses = r.sample(sc["ints"], min(len(sc["ints"]), r.randint(0, 2)))
+        uses = [u for u in uses if u not in pnames]
+        inner = self.new_scope(True, pnames + uses)
+        inner["callable"] = [c for c in sc["callable"] if not c[3]]
+        inner["procs"] = []
+        arrow = r.random() < 0.35
+        if arrow:
+            body = [["return", self.int_expr(inner, 1)]]
+        else:
+            body = self.prologue(inner)
+            if r.random() < 0.3:
+                body += [["static", "cs", 0], ["expr", ["assign", "cs", ["bin", "Add", var("cs"), lit(1)]]]]
+                inner["ints"].append("cs")
+            if uses and r.random() < 0.5:
+                body.append(["expr", ["assign", uses[0], ["bin", "Add", var(uses[0]), lit(1)]]])   # writes stay local
+            body += self.block(inner, 2, r.randint(0, 2))
+            body.append(["return", self.int_expr(inner)])
+        self.closures.append({"params": params, "uses": uses, "body": body, "arrow": arrow})
+        return len(self.closures) - 1, npar, nreq
+
+    def closure_stmt(self, sc):
+        r = self.rng
+        cid, npar, nreq = self.make_closure(sc)
+        self.nclo = getattr(self, "nclo", 0) + 1
+        name = "fn%d" % self.nclo
+        sc.setdefault("clos", []).append((name, npar, nreq))
+        return ["expr", ["assign", name, ["closure", cid]]]
+
+    def call_closure(self, sc, d):
+        r = self.rng
+        name, npar, nreq = r.choice(sc["clos"])
+        return ["callv", var(name), [self.int_expr(sc, d + 2) for _ in range(r.randint(nreq, npar))]]
+
     def match_expr(self, sc, d=0):
         """match (int) { ints => int, ... [default => int] }; without default only when an arm is sure to hit
         would be needed for ints downstream, so a default is always present except when the result is only printed"""
@@ -426,6 +510,17 @@ class Gen:
             if x not in sc["ints"]:
                 sc["ints"].append(x)
             return ["expr", ["assign", x, self.match_expr(sc)]]
+        if c < 0.09 and sc.get("arr_min", 0) > 0:
+            k = r.randrange(sc["arr_min"])
+            w = r.random()
+            if w < 0.4:
+                return ["expr", ["idxinc", r.random() < 0.5, sc["arr"], lit(k)]]
+            if w < 0.6 and sc["ints"]:
+                x = r.choice([v for v in sc["ints"] if v in sc["assignable"]] or sc["assignable"])
+                return ["expr", ["assign", x, ["idxinc", r.random() < 0.5, sc["arr"], lit(k)]]]
+            return ["setidx", sc["arr"], k, self.int_expr(sc)]
+        if c < 0.13 and sc["depth"] <= 1 and len(self.closures) < 4:
+            return self.closure_stmt(sc)
         if c < 0.35:
             return self.assign(sc)
         if c < 0.45 and sc["ints"]:
@@ -631,8 +726,10 @@ class Gen:
             sc["ints"].append(x)
         out.append(["expr", ["assign", sc["str"], lit(r.choice(["p", "q", "zz"]))]])
         sc["str_init"] = True
-        out.append(["expr", ["assign", sc["arr"], ["arr", [lit(r.randint(0, 5)) for _ in range(r.randint(0, 3))]]]])
+        n0 = r.randint(0, 3)
+        out.append(["expr", ["assign", sc["arr"], ["arr", [lit(r.randint(0, 5)) for _ in range(n0)]]]])
         sc["arr_init"] = True
+        sc["arr_min"] = n0
         return out
 
     def function(self, idx):
@@ -679,7 +776,7 @@ class Gen:
         sc["callable"] = [f for f in self.funcs if not f[5]]
         sc["procs"] = [f for f in self.funcs if f[5]]
         main = self.prologue(sc) + self.block(sc, 0, r.randint(2, 5))
-        return {"funcs": funcs, "main": main}
+        return {"funcs": funcs, "closures": self.closures, "main": main}
 
 
 def nest_program(outer, inner, jump, level, before):
@@ -750,6 +847,14 @@ def escape_programs():
                          [tag("i:", var("i")), ["expr", ["call", "esc", [var("i")]]], tag("back:", var("i"))]],
                         tag("end:", var("i"))]
                 out.append({"funcs": [f], "main": main})
+    # the same through a closure
+    for j in ("break", "continue"):
+        clo = {"params": [["n", None]], "uses": [], "body": [tag("in:", var("n")), ["if", ["bin", "Eq", var("n"), lit(1)], [[j, 1]], [], []],
+                                                           ["return", var("n")]], "arrow": False}
+        main = [["expr", ["assign", "t", ["closure", 0]]],
+                ["for", [["assign", "i", lit(0)]], ["bin", "Lt", var("i"), lit(3)], [["postinc", "i"]],
+                 [tag("i:", var("i")), ["expr", ["callv", var("t"), [var("i")]]], tag("back:", var("i"))]], tag("end:", var("i"))]
+        out.append({"funcs": [], "closures": [clo], "main": main})
     return out
 
 
@@ -854,9 +959,103 @@ def match_programs():
     return out
 
 
+def closure_programs():
+    """closures and arrow functions: captures are taken when the closure is created (later changes of the variable,
+    loop variables, a defining function that has returned), writes to captured variables stay local, each closure
+    object has its own static cells, closures passed to functions, returned from functions, stored in arrays"""
+    out = []
+    x, a = var("x"), var("a")
+    def clo(params, uses, body, arrow=False):
+        return {"params": params, "uses": uses, "body": body, "arrow": arrow}
+    # 0: use ($x); 1: arrow capturing $x; 2: counter with static; 3: returned from mk($k); 4: writes its capture
+    C = [clo([["a", None], ["b", [5]]], ["x"], [["expr", ["assign", "x", ["bin", "Add", x, a]]], ["return", ["bin", "Add", ["bin", "Mul", x, lit(10)], var("b")]]]),
+         clo([["a", None]], ["x"], [["return", ["bin", "Add", a, x]]], True),
+         clo([], [], [["static", "n", 0], ["expr", ["assign", "n", ["bin", "Add", var("n"), lit(1)]]], ["return", var("n")]]),
+         clo([["a", None]], ["k"], [["return", ["bin", "Mul", a, var("k")]]]),
+         clo([], ["i"], [["return", var("i")]]),
+         clo([["q", None]], ["f"], [["return", ["bin", "Add", ["callv", var("f"), [var("q")]], lit(100)]]], True)]
+    mk = {"name": "mk", "params": [["k", None]], "body": [["expr", ["assign", "h", ["closure", 3]]], ["expr", ["assign", "k", lit(1000)]], ["return", var("h")]]}
+    ap = {"name": "ap", "params": [["h", None], ["v", None]], "body": [["return", ["bin", "Add", ["callv", var("h"), [var("v")]], lit(1)]]]}
+    base = {"funcs": [mk, ap], "closures": C}
+    call = lambda f, *args: ["callv", var(f), list(args)]
+    out.append(dict(base, main=[["expr", ["assign", "x", lit(3)]], ["expr", ["assign", "f", ["closure", 0]]],
+                                ["expr", ["assign", "x", lit(50)]], tag("f1=", call("f", lit(1))), tag(" f2=", call("f", lit(1), lit(2))),
+                                tag(" x=", x), ["expr", ["assign", "g", ["closure", 1]]], ["expr", ["assign", "x", lit(7)]],
+                                tag(" g=", call("g", lit(5))), tag(" ap=", ["call", "ap", [var("f"), lit(4)]]),
+                                tag(" apg=", ["call", "ap", [var("g"), lit(4)]])]))
+    out.append(dict(base, main=[["expr", ["assign", "c", ["closure", 2]]], ["expr", ["assign", "d", ["closure", 2]]],
+                                tag("c", call("c")), tag("c", call("c")), tag("d", call("d")), tag("c", call("c")),
+                                ["expr", ["assign", "e", var("c")]], tag("e", call("e")), tag("c", call("c"))]))
+    out.append(dict(base, main=[["expr", ["assign", "m2", ["call", "mk", [lit(2)]]]], ["expr", ["assign", "m3", ["call", "mk", [lit(3)]]]],
+                                tag("m2=", call("m2", lit(5))), tag(" m3=", call("m3", lit(5))), tag(" m2=", call("m2", lit(6)))]))
+    out.append(dict(base, main=[["expr", ["assign", "fs", ["arr", []]]],
+                                ["for", [["assign", "i", lit(0)]], ["bin", "Lt", var("i"), lit(3)], [["postinc", "i"]], [["push", "fs", ["closure", 4]]]],
+                                ["foreach", var("fs"), None, "h", [tag("h", call("h"))]], tag(" i=", var("i"))]))
+    out.append(dict(base, main=[["expr", ["assign", "x", lit(2)]], ["expr", ["assign", "f", ["closure", 1]]],
+                                ["expr", ["assign", "w", ["closure", 5]]], ["expr", ["assign", "f", lit(0)]],
+                                tag("w=", call("w", lit(5)))]))
+    return out
+
+
+def static_branch_programs():
+    """a static declaration inside a branch: on calls that do not take the branch the name is an ordinary local"""
+    out = []
+    k, n = var("k"), var("n")
+    f = {"name": "f", "params": [["k", None]],
+         "body": [["if", ["bin", "Gt", k, lit(0)], [["static", "n", 10], ["expr", ["postinc", "n"]]], [], [["expr", ["assign", "n", lit(100)]]]],
+                  ["return", n]]}
+    h = {"name": "h", "params": [["k", None]],
+         "body": [["expr", ["assign", "c", lit(5)]],
+                  ["if", ["bin", "Eq", k, lit(1)], [["static", "c", 1], ["expr", ["assign", "c", ["bin", "Mul", var("c"), lit(2)]]]], [], []],
+                  ["return", var("c")]]}
+    lp = {"name": "lp", "params": [["k", None]],
+          "body": [["expr", ["assign", "t", lit(0)]],
+                   ["for", [["assign", "i", lit(0)]], ["bin", "Lt", var("i"), k], [["postinc", "i"]],
+                    [["static", "s", 0], ["expr", ["assign", "s", ["bin", "Add", var("s"), lit(1)]]], ["expr", ["assign", "t", var("s")]]]],
+                   ["return", var("t")]]}
+    for seq in ([1, 0, 1, 0, 1], [0, 0, 1, 1, 0], [1, 1, 1]):
+        main = []
+        for v in seq:
+            main += [tag("f", ["call", "f", [lit(v)]]), tag("h", ["call", "h", [lit(v)]]), tag("l", ["call", "lp", [lit(v + 1)]])]
+        out.append({"funcs": [f, h, lp], "closures": [], "main": main})
+    return out
+
+
+def index_programs():
+    """$a[i]++ / ++$a[i] / $a[i] = e update the element (and only it), the value of the expression is the old / new
+    element, the index expression is evaluated once, copies of the array are not affected"""
+    out = []
+    nx = {"name": "nx", "params": [], "body": [["static", "k", 0], tag("<nx", var("k")), ["expr", ["assign", "r", var("k")]],
+                                                ["expr", ["postinc", "k"]], ["return", var("r")]]}
+    el = {"name": "el", "params": [["a", None]], "body": [["expr", ["idxinc", False, "a", lit(1)]], ["return", ["idx", "a", lit(1)]]]}
+    show = [["foreach", var("b"), "k", "v", [tag(" ", var("v"))]]]
+    main = [["expr", ["assign", "b", ["arr", [lit(10), lit(20), lit(30)]]]],
+            ["expr", ["idxinc", False, "b", lit(0)]], ["expr", ["idxinc", True, "b", lit(1)]], ["setidx", "b", 2, ["bin", "Add", ["idx", "b", lit(2)], lit(5)]],
+            ["expr", ["assign", "i", lit(1)]], ["expr", ["idxinc", False, "b", var("i")]]] + show + [
+            ["expr", ["assign", "x", ["idxinc", False, "b", lit(0)]]], ["expr", ["assign", "y", ["idxinc", True, "b", lit(0)]]],
+            tag(" x=", var("x")), tag(" y=", var("y")),
+            ["expr", ["idxinc", False, "b", ["call", "nx", []]]], ["expr", ["idxinc", True, "b", ["call", "nx", []]]]] + show + [
+            ["expr", ["assign", "i", lit(0)]], ["expr", ["idxinc", False, "b", ["postinc", "i"]]], tag(" i=", var("i"))] + show + [
+            ["expr", ["assign", "c", var("b")]], ["expr", ["idxinc", False, "c", lit(2)]], ["setidx", "c", 0, lit(0)],
+            tag(" c2=", ["idx", "c", lit(2)]), tag(" b2=", ["idx", "b", lit(2)]), tag(" b0=", ["idx", "b", lit(0)]),
+            tag(" el=", ["call", "el", [var("b")]]), tag(" b1=", ["idx", "b", lit(1)])]
+    out.append({"funcs": [nx, el], "closures": [], "main": main})
+    return out
+
+
 def dirty_programs(rng, n):
     """programs of the recorded defect classes (kept small and otherwise plain, so that the key names the class)"""
     out = []
+    # closures that run off their end: the implementation yields the value of the last statement (arrow functions rely on
+    # that path).  Statement values are not modelled, so here ImplSem does NOT mirror the code: for programs of exactly
+    # this class a model/implementation difference is the known finding, not a broken tie (see main()).
+    for body in ([["expr", ["assign", "x", lit(5)]]],
+                 [["if", ["bin", "Gt", var("p"), lit(0)], [["return", lit(1)]], [], []], ["expr", ["assign", "y", lit(7)]]],
+                 [["expr", ["assign", "z", ["bin", "Add", var("p"), lit(1)]]], ["echo", lit("in;")], ["expr", ["postinc", "z"]]]):
+        clo = {"params": [["p", None]], "uses": [], "body": body, "arrow": False}
+        main = [["expr", ["assign", "f", ["closure", 0]]], ["expr", ["assign", "r", ["callv", var("f"), [lit(0)]]]],
+                ["if", ["same", var("r"), lit(None)], [["echo", lit("null")]], [], [tag("value:", var("r"))]]]
+        out.append(({"funcs": [], "closures": [clo], "main": main}, "closure:falloff-value"))
     for i in range(n):
         kind = ["case-nonlast", "empty-case-group", "default-nonlast", "static-main"][i % 4]
         sel = rng.randint(0, 3)
@@ -924,6 +1123,7 @@ class Probe:
 
     def __init__(self, pr, budget=60000):
         self.funcs = {f["name"]: f for f in pr["funcs"]}
+        self.clos = pr.get("closures", [])
         self.classes = {c[0]: c for c in pr.get("classes", [])}
         self.ifaces = {i[0]: i for i in pr.get("ifaces", [])}
         self.nextid = 0
@@ -1015,6 +1215,44 @@ class Probe:
             except _Ret as r:
                 return r.v
             return None
+        if k == "idx":
+            i = self.ev(e[2], fr)
+            a = self.rd(fr, e[1])
+            if not isinstance(a, list) or not isinstance(i, int) or not (0 <= i < len(a)):
+                raise TooBig()                # outside the generator's domain
+            return a[i]
+        if k == "idxinc":
+            i = self.ev(e[3], fr)
+            a = self.rd(fr, e[2])
+            if not isinstance(a, list) or not isinstance(i, int) or not (0 <= i < len(a)) or not isinstance(a[i], int):
+                raise TooBig()
+            old = a[i]
+            b = list(a)
+            b[i] = self.chk(old + 1)
+            self.wr(fr, e[2], b)
+            return b[i] if e[1] else old
+        if k == "closure":
+            c = self.clos[e[1]]
+            self.nextid += 1
+            return ("clo", e[1], self.nextid, {x: self.rd(fr, x) for x in c["uses"]})
+        if k == "callv":
+            f = self.ev(e[1], fr)
+            if not (isinstance(f, tuple) and f[0] == "clo"):
+                raise TooBig()
+            vs = [self.ev(x, fr) for x in e[2]]
+            c = self.clos[f[1]]
+            nf = {"fn": "{%d" % f[2], "vars": {}, "static": set()}
+            for i, (x, d) in enumerate(c["params"]):
+                if i < len(vs):
+                    nf["vars"][x] = vs[i]
+                elif d is not None:
+                    nf["vars"][x] = d[0]
+            nf["vars"].update(f[3])
+            try:
+                self.block(c["body"], nf)
+            except _Ret as r:
+                return r.v
+            return None
         if k == "new":
             m = self.tostr(self.ev(e[2], fr))
             self.nextid += 1
@@ -1093,6 +1331,14 @@ class Probe:
             v = self.ev(s[2], fr)
             a = self.rd(fr, s[1])
             self.wr(fr, s[1], (list(a) if isinstance(a, list) else []) + [v])
+        elif k == "setidx":
+            v = self.ev(s[3], fr)
+            a = self.rd(fr, s[1])
+            if not isinstance(a, list) or not (0 <= s[2] < len(a)):
+                raise TooBig()
+            b = list(a)
+            b[s[2]] = v
+            self.wr(fr, s[1], b)
         elif k == "if":
             if self.ev(s[1], fr):
                 return self.block(s[2], fr)
@@ -1292,6 +1538,12 @@ def main(ck):
             cases.append((pr, True, None, "paramalias"))
         for pr in match_programs():
             cases.append((pr, True, None, "match"))
+        for pr in closure_programs():
+            cases.append((pr, True, None, "closure"))
+        for pr in static_branch_programs():
+            cases.append((pr, True, None, "staticbranch"))
+        for pr in index_programs():
+            cases.append((pr, True, None, "index"))
         nrand = 450 if ck.tier == "quick" else 6000
         discarded = 0
         while nrand > 0:
@@ -1346,6 +1598,9 @@ def main(ck):
             ck.broken.append("generator:" + ",".join(str(x) for x in cls))
             ck.violation("generator:%s" % fam, replay)
             continue
+        if dkey == "closure:falloff-value" and set(cls) <= {1, 2}:
+            ck.violation(dkey, replay)       # documented modelling gap = the known finding (see dirty_programs)
+            continue
         if 1 in cls:
             # the model no longer describes the code
             ck.broken.append("correspondence:C02.ImplSem")
@@ -1376,7 +1631,7 @@ def main(ck):
     ck.cov["construct_occurrences"] = dist
     ck.cov["program_size_median"] = sizes[len(sizes) // 2] if sizes else 0
     ck.cov["program_size_max"] = sizes[-1] if sizes else 0
-    ck.cov["families"] = {f: sum(1 for c in cases if c[3] == f) for f in ("nest2", "alias", "escape", "recursion", "paramalias", "match", "random", "dirty", "replay")}
+    ck.cov["families"] = {f: sum(1 for c in cases if c[3] == f) for f in ("nest2", "alias", "escape", "recursion", "paramalias", "match", "closure", "staticbranch", "index", "random", "dirty", "replay")}
     ck.cov["impl_outcomes"] = outcome_hist
     ck.samples = [srcs[len(srcs) // 2], srcs[-1]] if srcs else []
     ck.finish(level="proof", evaluations=len(cases), distinct_nontrivial=nontriv,
